@@ -2,7 +2,9 @@
 (* C07, second half: what a JobsCursor shows, and groupby.
 
    CursorView   a cursor over the id set S: len, iteration (some permutation of S), cursor[i], cursor[lo:hi:step],
-                "job in cursor" all describe S.  The iteration order is not specified, so the view is judged on
+                "job in cursor" all describe S - in whatever ORDER the operations are applied to one cursor object (TLC
+                exports the operation scripts: all 24 orders of the blocks contains / len / iter / item).
+                The iteration order is not specified, so the view is judged on
                 recorded observations (CursorOK) - TLC decides every record (MODE = "cfile", CURSOR_IN).
    GroupBy      groupby(key[, default]) over the jobs Sel a cursor selects:
                   Sel' = the jobs of Sel that have every key (no default)  /  all of Sel (default given)
@@ -121,12 +123,17 @@ CaseSortable(C, Sel, K, d) ==       \* for the reference and for the conformant 
 (* generator *)
 us == <<117>>   vs_ == <<118>>
 GValsA == {Abs, I(0), I(1), F(1, 1), B(TRUE), I(2), S(us), S(vs_)}
-GSp(a, nx, x) == M((IF a = Abs THEN <<>> ELSE << <<"a", a>> >>)
+\* keys: a, n.x, x and - names that merely BEGIN with a namespace word - speed, species.name (state point), docs (document)
+GSp(a, nx, x, spd, spn) == M((IF a = Abs THEN <<>> ELSE << <<"a", a>> >>)
                    \o (IF nx = Abs THEN <<>> ELSE << <<"n", M(<< <<"x", nx>> >>)>> >>)
+                   \o (IF spn = Abs THEN <<>> ELSE << <<"species", M(<< <<"name", spn>> >>)>> >>)
+                   \o (IF spd = Abs THEN <<>> ELSE << <<"speed", spd>> >>)
                    \o (IF x = Abs THEN <<>> ELSE << <<"x", x>> >>))
-GDoc(x, nx) == M((IF nx = Abs THEN <<>> ELSE << <<"n", M(<< <<"x", nx>> >>)>> >>) \o (IF x = Abs THEN <<>> ELSE << <<"x", x>> >>))
-GJobs == {Job(GSp(a, nx, x), GDoc(dx, dnx)) : a \in GValsA, nx \in {Abs, I(1), I(2), S(us)}, x \in {Abs, I(7)},
-                                             dx \in {Abs, I(1), F(2, 1), S(us)}, dnx \in {Abs, I(5)}}
+GDoc(x, nx, dcs) == M((IF dcs = Abs THEN <<>> ELSE << <<"docs", dcs>> >>)
+                      \o (IF nx = Abs THEN <<>> ELSE << <<"n", M(<< <<"x", nx>> >>)>> >>) \o (IF x = Abs THEN <<>> ELSE << <<"x", x>> >>))
+GJobs == {Job(GSp(a, nx, x, spd, spn), GDoc(dx, dnx, dcs)) : a \in GValsA, nx \in {Abs, I(1), I(2), S(us)}, x \in {Abs, I(7)},
+                                             spd \in {Abs, I(3), I(4)}, spn \in {Abs, S(us), S(vs_)},
+                                             dx \in {Abs, I(1), F(2, 1), S(us)}, dnx \in {Abs, I(5)}, dcs \in {Abs, I(9)}}
 GCorpora == IF MODE # "group" THEN <<>> ELSE
             SetToSeq({<<>>} \cup RandomSubset(NGCORP \div 4 + 1, [1..1 -> GJobs])
                      \cup {c \in RandomSubset(NGCORP, [1..2 -> GJobs]) : DistinctSps(c)}
@@ -136,7 +143,9 @@ GKeys == {KStr(<<"a">>), KStr(<<"sp", "a">>), KStr(<<"doc", "x">>), KStr(<<"n", 
           KStr(<<"doc", "n", "x">>), KStr(<<"x">>), KStr(<<"zz">>), KNone,
           KTuple(<< <<"a">>, <<"doc", "x">> >>), KTuple(<< <<"doc", "x">>, <<"a">> >>), KTuple(<< <<"sp", "a">> >>),
           KTuple(<< <<"a">>, <<"x">> >>), KTuple(<< <<"a">>, <<"n", "x">> >>), KTuple(<< <<"doc", "x">>, <<"sp", "x">>, <<"doc", "n", "x">> >>),
-          KCall("getor0", <<"a">>), KCall("getor0", <<"doc", "x">>), KCall("const", <<"a">>)}
+          KCall("getor0", <<"a">>), KCall("getor0", <<"doc", "x">>), KCall("const", <<"a">>),
+          KStr(<<"speed">>), KStr(<<"sp", "speed">>), KStr(<<"species", "name">>), KStr(<<"doc", "docs">>),
+          KTuple(<< <<"speed">>, <<"species", "name">> >>), KTuple(<< <<"doc", "docs">>, <<"speed">> >>)}
 GDefaults == {NoDefault, I(0), I(0 - 1), S(us)}
 GSelFilters == {All, At(<<"sp", "a">>, "$exists", B(TRUE)), At(<<"sp", "a">>, "$ne", I(1)), At(<<"doc", "x">>, "$type", S(TN.int)),
                 Or(<<At(<<"sp", "a">>, "eq", I(1)), At(<<"sp", "n", "x">>, "$exists", B(TRUE))>>)}
@@ -209,37 +218,69 @@ GJudge ==
 
 -----------------------------------------------------------------------------
 (* CursorView *)
+\* What a cursor over the id set `ids` shows is a function of `ids` alone: it has no state. In particular the answers do
+\* not depend on the ORDER in which the operations are applied to one cursor object (membership asked first on a fresh
+\* cursor, after len(), after an iteration, after indexing ...).  A recorded observation is therefore a SCRIPT: the
+\* sequence of operations applied to one fresh cursor, each with its arguments and its result, and every step is judged
+\* against CursorView(ids).  The iteration order is not specified; it is fixed by the (first) "iter" step of the script,
+\* every other iteration must repeat it and indexing / slicing must agree with it.
 CursorView(ids) == [len |-> Cardinality(ids), contains |-> [i \in ids |-> TRUE]]
 IsPermOf(it, ids) == Len(it) = Cardinality(ids) /\ {it[i] : i \in 1..Len(it)} = ids
 \* Python indexing / slicing of the iteration sequence (positions are 0-based in Python)
 PyIndex(it, i) == LET n == Len(it)  j == IF i < 0 THEN i + n ELSE i IN
                   IF j < 0 \/ j >= n THEN 0 ELSE it[j + 1]                     \* 0: IndexError
 Clamp(x, lo, hi) == IF x < lo THEN lo ELSE IF x > hi THEN hi ELSE x
+SliceCount(n, lo, hi, step) ==
+  LET a == Clamp(IF lo < 0 THEN lo + n ELSE lo, 0, n)
+      b == Clamp(IF hi < 0 THEN hi + n ELSE hi, 0, n)
+  IN IF b <= a THEN 0 ELSE ((b - a - 1) \div step) + 1
 PySlice(it, lo, hi, step) ==   \* step >= 1, explicit bounds
   LET n == Len(it)
       a == Clamp(IF lo < 0 THEN lo + n ELSE lo, 0, n)
-      b == Clamp(IF hi < 0 THEN hi + n ELSE hi, 0, n)
-      cnt == IF b <= a THEN 0 ELSE ((b - a - 1) \div step) + 1
-  IN [q \in 1..cnt |-> it[a + (q - 1) * step + 1]]
+  IN [q \in 1..SliceCount(n, lo, hi, step) |-> it[a + (q - 1) * step + 1]]
+\* the scripts the harness has to run: every order of the four operation blocks on one fresh cursor. The "contains"
+\* block asks membership for EVERY job of the corpus (members and non-members) and for a job that is not in the project.
+OpBlocks == {"contains", "len", "iter", "item"}
+Scripts == SetToSeq({sq \in [1..4 -> OpBlocks] : \A a, b \in 1..4 : a # b => sq[a] # sq[b]})
+\* a step: [op, a (integer arguments), r (integer results: positions; 0 = IndexError; 1/0 for membership)]
+StepOK(st, ids, it, hasIt) ==
+  LET n == Cardinality(ids) IN
+  CASE st.op = "len"      -> st.r = <<CursorView(ids).len>>
+    [] st.op = "contains" -> st.r = <<IF st.a[1] \in ids THEN 1 ELSE 0>>
+    [] st.op = "iter"     -> IsPermOf(st.r, ids) /\ (hasIt => st.r = it)
+    [] st.op = "item"     -> IF hasIt THEN st.r = <<PyIndex(it, st.a[1])>>
+                             ELSE LET j == IF st.a[1] < 0 THEN st.a[1] + n ELSE st.a[1] IN
+                                  IF j < 0 \/ j >= n THEN st.r = <<0>> ELSE st.r[1] \in ids
+    [] st.op = "slice"    -> IF hasIt THEN st.r = PySlice(it, st.a[1], st.a[2], st.a[3])
+                             ELSE Len(st.r) = SliceCount(n, st.a[1], st.a[2], st.a[3]) /\ \A q \in 1..Len(st.r) : st.r[q] \in ids
+    [] OTHER -> FALSE
 CursorIn == IF MODE = "cfile" THEN ndJsonDeserialize(IOEnv.CURSOR_IN) ELSE <<>>
 CursorVerdict(i) ==
   LET o == CursorIn[i]
       ids == {o.S[q] : q \in 1..Len(o.S)}
-      it == o.iter IN
-  [i |-> i,
-   len      |-> o.len = CursorView(ids).len,
-   iter     |-> IsPermOf(it, ids),
-   again    |-> o.iter2 = it,                                                   \* a second iteration of the same cursor
-   items    |-> \A q \in 1..Len(o.items) : o.items[q][2] = PyIndex(it, o.items[q][1]),
-   slices   |-> \A q \in 1..Len(o.slices) : o.slices[q][4] = PySlice(it, o.slices[q][1], o.slices[q][2], o.slices[q][3]),
-   contains |-> \A q \in 1..Len(o.contains) : o.contains[q][2] = (o.contains[q][1] \in ids)]
+      its == {q \in 1..Len(o.steps) : o.steps[q].op = "iter"}
+      hasIt == its # {}
+      it == IF hasIt THEN o.steps[CHOOSE q \in its : \A p \in its : q <= p].r ELSE <<>>
+      okAt(q) == StepOK(o.steps[q], ids, it, hasIt)
+      kind(op) == \A q \in 1..Len(o.steps) : o.steps[q].op = op => okAt(q)
+      bad == {q \in 1..Len(o.steps) : ~okAt(q)}
+  IN [i |-> i,
+      len |-> kind("len"), iter |-> kind("iter"), items |-> kind("item"), slices |-> kind("slice"), contains |-> kind("contains"),
+      firstbad |-> IF bad = {} THEN 0 ELSE CHOOSE q \in bad : \A p \in bad : q <= p]
 CursorJudge ==
   /\ TLCGet("level") >= 0
   /\ ndJsonSerialize(IOEnv.CURSOR_OUT, [i \in 1..Len(CursorIn) |-> CursorVerdict(i)])
+ScriptExport ==
+  /\ TLCGet("level") >= 0
+  /\ ndJsonSerialize(IOEnv.CURSOR_SCRIPTS, Scripts)
 \* theorems about PyIndex / PySlice (checked as ASSUME-like invariants of the generator run)
 SliceLaws ==
   LET it == <<11, 12, 13, 14>> IN
   /\ PySlice(it, 0, 4, 1) = it /\ PySlice(it, 1, 3, 1) = <<12, 13>> /\ PySlice(it, 0 - 2, 9, 1) = <<13, 14>>
   /\ PySlice(it, 0, 4, 2) = <<11, 13>> /\ PySlice(it, 3, 1, 1) = <<>> /\ PySlice(it, 0 - 9, 0 - 3, 1) = <<11>>
   /\ PyIndex(it, 0) = 11 /\ PyIndex(it, 0 - 1) = 14 /\ PyIndex(it, 4) = 0 /\ PyIndex(it, 0 - 5) = 0
+  /\ Len(Scripts) = 24
+  \* order independence on an example: membership first on a fresh cursor / after the other operations - same verdicts
+  /\ \A k \in 1..Len(Scripts) : \A j \in 1..3 :
+        StepOK([op |-> "contains", a |-> <<j>>, r |-> <<IF j \in {1, 3} THEN 1 ELSE 0>>], {1, 3}, <<3, 1>>, Scripts[k][1] = "iter")
 =============================================================================
